@@ -13,6 +13,41 @@ STRENGTHENED = {
  "C01-m3": "missed at first (the harness only used NewWith with its own comparators on int keys); C01 gained targets that use the default constructors (New) on float64 keys including NaN, the two zeros and the infinities",
  "C04-m3": "missed at first (9-value domain never reached a 10-member tree); C04 gained a 48-value-domain target with long histories",
 }
+STRENGTHENED.update({
+ "C01-r2m1": "missed at first (B-tree orders stopped at 33); C01 gained a wide-node target (orders 34..128 with hundreds of keys)",
+ "C01-r2m3": "missed at first (no float keys on hash maps); C01 gained a float64-key target for the hash kinds that checks the Clear clause with NaN keys",
+ "C02-r2m1": "missed at first; C02 gained default-constructor float64 navigation targets (NaN, zeros, infinities)",
+ "C03-r2m3": "missed at first (Contains probes had at most 3 arguments); probes now go up to 30 values and the whole contents",
+ "C04-r2m1": "missed at first (variadics had at most 6 values); long variadics of 8..40 values added",
+ "C04-r2m2": "missed at first; C04 gained a treeset.New[float64] target with NaN members",
+ "C04-r2m3": "missed at first (sets of at most ~48 members); the large-domain target now fills 150..400 members and uses 9..40-argument calls",
+ "C06-r2m1": "missed at first (loaded documents always spelled out every field); loads that omit the ID field were added",
+ "C06-r2m2": "missed at first; C06 gained binaryheap.New / priorityqueue.New float64 targets with NaN",
+ "C07-r2m2": "missed at first (no FromJSON in the workloads); a load workload op was added to C07",
+ "C09-r2m2": "missed at first (histories of at most ~160 calls); soak targets of 300..1000 calls on one instance were added",
+ "C10-r2m1": "missed at first; soak targets of 300..900 calls on one map were added",
+ "C10-r2m2": "missed at first; C10 gained a treebidimap.New[float64,float64] target with NaN",
+ "C10-r2m3": "missed at first (C10 never called FromJSON); a load op with non-injective documents was added",
+ "C11-r2m1": "missed at first (values were scalars); slice-valued maps (V = []int) were added",
+ "C11-r2m3": "missed at first; C11 now keeps the bytes returned by ToJSON while other containers are serialised and requires them unchanged",
+ "C12-r2m1": "missed at first (prior content of at most ~10 operations); the big-int target now fills up to 400 keys before loading",
+ "C12-r2m2": "missed at first (values were scalars); slice-valued maps with hand-made documents were added",
+ "C12-r2m3": "missed at first (one load per case); cases may now load two or three inputs in succession",
+ "C13-r2m1": "missed at first (operands of at most ~10 elements); large operands now really have 25..80 elements",
+ "C13-r2m2": "missed at first (TreeSet algebra only with one-to-one comparators); many-to-one comparators with class semantics were added",
+ "C13-r2m3": "missed at first; operand pairs with a size ratio of 8x and more were added",
+ "C14-r2m1": "missed at first (pure predicates only); every enumerable function's callback is now logged: each pair at most once, in iterator order",
+ "C14-r2m2": "missed at first; see C14-r2m1 (callback logs)",
+ "C15-r2m2": "missed at first (ring capacities up to 7, single enqueues); capacities up to 100 and repeated-call bulk steps were added",
+ "C16-r2m1": "missed at first (variadics of at most 5 values); variadic calls and constructor lists of 32..200 values into never-filled containers were added",
+ "C16-r2m2": "missed at first (states were never built through FromJSON); the generic script gained a load op",
+ "C16-r2m3": "missed at first (the check's own observers consumed the first snapshot after a mutation); the first Values()/Keys() after each mutation is now poisoned before anything else runs",
+ "C17-r2m1": "missed at first (variadics of at most 6 values, lists under ~100 elements); bulk steps (repeat N, V values) were added to the reflective driver",
+ "C17-r2m2": "missed at first (int elements only); the reflective driver gained a float64 configuration with the default constructors; caught by the watchdog",
+ "C17-r2m3": "missed at first (queues under ~60 elements); bulk steps were added",
+ "C18-r2m1": "missed at first (once-per-process initialisation was warmed by earlier sequential calls); a deep-structures-first concurrent target now runs as the first test of the process, and the concurrent phase precedes the sequential answers",
+ "C18-r2m4": "missed at first (int elements only); concurrent readers over string-element containers (two instances at once) were added",
+})
 only = sys.argv[1:]
 for d in sorted(glob.glob('/verif/seeded/*/')):
     name = os.path.basename(d.rstrip('/'))
